@@ -3,8 +3,9 @@
    Observation: four result codes (Checkers.Validate, basiccheck, epochcheck, parentscheck).
    model side: the extracted checkers; the id of a parent is the C32 event-id layout
    (epoch(4) lamport(4) tail(24), big endian) read as a number.
-   spec side: [answer_ok] (spec/EventCheckSpec.v) on the implementation's combined answer, when the
-   case satisfies the theorem's hypotheses (the parents passed are the ones named by the id list). *)
+   spec side: [answer_ok_gen] (spec/EventCheckSpec.v; C13_answer_ok_gen_unique) on the implementation's
+   combined answer for EVERY case, and additionally [answer_ok] (the property's sentence proper) when
+   the parents passed are the ones named by the id list. *)
 open Model
 open Conv
 open Drv
@@ -46,7 +47,8 @@ let eval inp obs =
     let model_obs = [code m_all; code (basic_validate e); code (epoch_validate cur vals e);
                      code (parents_validate e ps)] in
     let consistent = (List.map (fun p -> p.p_id) ps = ids) in
-    let spec_on r = if consistent then Some (answer_ok cur vals e ps r) else None in
+    let spec_on r =
+      Some (answer_ok_gen cur vals e ps r && (if consistent then answer_ok cur vals e ps r else true)) in
     let spec_ok = (match obs with
       | a :: _ -> (match result_of_code a with
                    | Some r -> spec_on r
@@ -55,7 +57,7 @@ let eval inp obs =
     let model_spec_ok = (match spec_on m_all with Some b -> b | None -> true) in
     { default_verdict with model_obs; spec_ok; model_spec_ok;
       nontrivial = true;
-      note = (if consistent then "" else "(parents_of does not hold: spec not applicable)") }
+      note = (if consistent then "" else "(parents_of does not hold: general verdict only)") }
   | _ -> failwith "bad case"
 
 let () = run eval
